@@ -14,6 +14,9 @@
 //!                    step's span as its explicit parent),
 //!                    "nested": bool (one more message, logged by a step of a NESTED `runner::Basic` run that this step drives
 //!                    to completion: two scenario spans are then nested, the outer one must win),
+//!                    "foreign": bool (after each of its own messages the step logs one line inside a ROOT span that carries a scenario id
+//!                    no collector knows — what a second Cucumber run in the same process produces; it is broadcast and must
+//!                    neither be lost nor hold anything back; its Log events are marked ["LogForeign"]),
 //!                    "leak": bool (a clone of the step's span is held beyond the step's end and dropped inside a step of
 //!                    another scenario: the span outlives its future, the close arrives AFTER the subscription)}]}]}
 //! History records: ["cb", scenario, step, attempt, span] ["emit", scenario, message id, span(, "off")] ["close", span] ["sub", span] ["fwd"]
@@ -125,6 +128,7 @@ impl Future for DrainYield {
 struct St {
     steps: BTreeMap<u64, (u64, u64, u64, bool, bool)>, // step id -> pre, yields, post, inner, under
     leaky: std::collections::BTreeSet<u64>, // steps that hold a clone of their span beyond their own end
+    foreign: std::collections::BTreeSet<u64>,  // steps that log one line under a scenario id nobody registered
     nested: std::collections::BTreeSet<u64>,   // steps that drive a nested run whose step logs one more message
     off_thread: std::collections::BTreeSet<u64>, // steps that also log from a helper thread (explicit parent span)
     leaked: Vec<(tracing::Span, u64)>,   // with the number of yield polls seen since
@@ -272,6 +276,7 @@ fn logging_step(_: &mut W, ctx: step::Context) -> LocalBoxFuture<'_, ()> {
         let span = tracing::Span::current().id().map_or(0, |i| i.into_u64());
         verif_trace::record("cbspan", sid * 1_000_000 + stid * 10 + k, span);
         // `span` is the step's span; with `inner` the message is emitted inside a user span nested in it
+        let foreign = ST.with(|s| s.borrow().foreign.contains(&stid));
         let say = |n: u64| {
             for _ in 0..n {
                 if inner {
@@ -280,6 +285,19 @@ fn logging_step(_: &mut W, ctx: step::Context) -> LocalBoxFuture<'_, ()> {
                     emit(sid, span, under);
                 } else {
                     emit(sid, span, under);
+                }
+                if foreign {
+                    // after each of its own messages: a line logged inside a ROOT span carrying an UNREGISTERED scenario id
+                    // (what a second runner in the same process produces, interleaved with this run's logs)
+                    let warn = ST.with(|s| s.borrow().warn);
+                    let sp = tracing::info_span!(parent: None, "scenario", __cucumber_scenario_id = 4_000_000_000u64);
+                    sp.in_scope(|| {
+                        if warn {
+                            tracing::warn!("FOREIGN line");
+                        } else {
+                            tracing::info!("FOREIGN line");
+                        }
+                    });
                 }
             }
         };
@@ -363,7 +381,7 @@ impl Writer<W> for Rec {
                 .nth(1)
                 .and_then(|r| r.split('#').next())
                 .and_then(|n| n.parse::<u64>().ok());
-            j[5] = json!(["LogMsg", id]);
+            j[5] = if msg.contains("FOREIGN line") { json!(["LogForeign"]) } else { json!(["LogMsg", id]) };
         }
         ST.with(|s| s.borrow_mut().events.push(j));
     }
@@ -406,6 +424,9 @@ fn main() {
             s.steps.push(util::step(gherkin::StepType::Given, &format!("log {sid}"), stid as usize));
             if st["off_thread"].as_bool().unwrap_or(false) {
                 ST.with(|x| x.borrow_mut().off_thread.insert(stid));
+            }
+            if st["foreign"].as_bool().unwrap_or(false) {
+                ST.with(|x| x.borrow_mut().foreign.insert(stid));
             }
             if st["nested"].as_bool().unwrap_or(false) {
                 ST.with(|x| x.borrow_mut().nested.insert(stid));
